@@ -27,6 +27,8 @@ def build_event_classes(parents: list[list[int]], n: int) -> list[type]:
         if i not in classes:
             base = make(par[i]) if i in par else Event
             classes[i] = type("Ev", (base,), {})      # (made by one factory: one qualified name for all of them)
+            if i % 2:
+                classes[i].__module__ = "__main__"      # … every second one defined in the application's own script
         return classes[i]
 
     return [make(i) for i in range(n)]
@@ -403,5 +405,15 @@ def canon(res: list[str]) -> list[str]:
 
 
 def run_sig_case(case: dict[str, Any]) -> dict[str, Any]:
+    import sys
+
     d = SigDirector(case)
-    return vclock.run(d.main, backend=case.get("backend", "asyncio"))
+    main_mod = sys.modules["__main__"]
+    spec = getattr(main_mod, "__spec__", None)
+    if len(case.get("ops", ())) % 2:
+        # as in an application started as a script by path (`python app.py`), not with -m: __main__ has no spec
+        main_mod.__spec__ = None
+    try:
+        return vclock.run(d.main, backend=case.get("backend", "asyncio"))
+    finally:
+        main_mod.__spec__ = spec
